@@ -39,7 +39,6 @@ macro_rules! vcover {
 
 /// Harnesses that serve several properties announce which part they are in, so that a panic raised by the code under
 /// test is attributed to that part's marker (`<section>.panic: <message>`) instead of to every property served.
-#[cfg(not(kani))]
 pub mod sect {
     use std::sync::Mutex;
     pub static CUR: Mutex<&'static str> = Mutex::new("");
@@ -50,7 +49,6 @@ pub fn section(s: &'static str) {
 }
 #[cfg(kani)]
 pub fn section(_s: &'static str) {}
-#[cfg(not(kani))]
 pub fn current_section() -> &'static str {
     *sect::CUR.lock().unwrap_or_else(|e| e.into_inner())
 }
@@ -86,7 +84,6 @@ macro_rules! kani_twin {
 }
 
 pub mod util;
-#[cfg(not(kani))]
 pub mod alloc_count;
 pub mod stride;
 pub mod slice;
